@@ -396,6 +396,9 @@ func c04Run(r *vt.Run, c c04Case) (points []sim.Point, devDesc string, found []c
 				pubOverDead = true
 			}
 		})
+		h.MarkMonitor(func(host, detail string) {
+			violate("C04/4-list-never-contains-marked-for-recovery/at-marking", detail)
+		})
 		// converge under S1
 		apply(c.S1)
 		for i := 0; i < 4; i++ {
